@@ -24,7 +24,7 @@ def small_specs(ctx, n):
             dead = (i // 4) % 2 == 1
             prof = {**SMALL, "T": [2, 3]}
             if dead:
-                prof.update(p_infeasible_last=1.0, p_w=1.0, p_c=1.0, p_nobind=0.0)
+                prof.update(p_w=0.0, p_z=0.0, p_h=1.0, p_h_stoch=0.0, p_dead_label=1.0, p_a=1.0, sizes={"h": 3})
             m = gen.rand_model(rng, prof)
             mm, a, b = laws.affine(rng, m)
             specs.append(mk_pair(len(specs), "affine", m, mm, a=a, b=b, label="small" + ("; dead-end states" if dead else "")))
